@@ -304,12 +304,12 @@ def _d_val(v, fmt):
     return d
 
 
-def _d_prop(p, fmt):
+def _d_prop(p, fmt, empties=None):
     d = {}
     if p['name'] is not None and not p.get('name_last'):
         d['name'] = p['name']
     _d_attrs(d, p['attrs'], fmt)
-    if p['values']:
+    if p['values'] or empties == 'explicit':
         d['values'] = [_d_val(v, fmt) for v in p['values']]
     if p['id'] is not None:
         d['id'] = _n(p['id'], fmt)
@@ -318,7 +318,9 @@ def _d_prop(p, fmt):
     return d
 
 
-def _d_sec(s, fmt):
+def _d_sec(s, fmt, empties=None):
+    """empties: how containers without content are written: None = as the 1.0 library wrote them ('sections'
+    always, 'properties' / 'values' only with content), 'omitted' = none of them, 'explicit' = all of them."""
     d = {}
     if s['name'] is not None and not s.get('name_last'):
         d['name'] = s['name']
@@ -326,9 +328,10 @@ def _d_sec(s, fmt):
     _d_attrs(d, s['attrs'], fmt)
     if s['id'] is not None:
         d['id'] = _n(s['id'], fmt)
-    if s['props']:
-        d['properties'] = [_d_prop(p, fmt) for p in s['props']]
-    d['sections'] = [_d_sec(c, fmt) for c in s['secs']]
+    if s['props'] or empties == 'explicit':
+        d['properties'] = [_d_prop(p, fmt, empties) for p in s['props']]
+    if s['secs'] or empties != 'omitted':
+        d['sections'] = [_d_sec(c, fmt, empties) for c in s['secs']]
     if s['name'] is not None and s.get('name_last'):
         d['name'] = s['name']
     return d
@@ -344,23 +347,30 @@ def _reorder(obj, order):
     return obj
 
 
-def to_dict(doc, fmt='JSON', order=None):
+def to_dict(doc, fmt='JSON', order=None, empties=None):
     d = {}
     _d_attrs(d, doc['attrs'], fmt)
     if doc['id'] is not None:
         d['id'] = _n(doc['id'], fmt)
-    d['sections'] = [_d_sec(s, fmt) for s in doc['secs']]
+    if doc['secs'] or empties != 'omitted':
+        d['sections'] = [_d_sec(s, fmt, empties) for s in doc['secs']]
     out = {'Document': d, 'odml-version': '1'}
     return _reorder(out, order) if order else out
 
 
-def to_json(doc, order=None):
-    return json.dumps(to_dict(doc, 'JSON', order), indent=1, ensure_ascii=False)
+def to_json(doc, order=None, empties=None):
+    return json.dumps(to_dict(doc, 'JSON', order, empties), indent=1, ensure_ascii=False)
 
 
-def to_yaml(doc, order=None):
-    return yaml.safe_dump(to_dict(doc, 'YAML', order), default_flow_style=False, sort_keys=False,
+def to_yaml(doc, order=None, empties=None):
+    return yaml.safe_dump(to_dict(doc, 'YAML', order, empties), default_flow_style=False, sort_keys=False,
                           allow_unicode=True)
+
+
+def to_xml_pretty(doc, decl=''):
+    """The same XML document laid out with one element per line (mixed content is left as it is)."""
+    root = ET.fromstring(to_xml(doc, decl='').encode('utf-8'))
+    return decl + ET.tostring(root, pretty_print=True, encoding='unicode')
 
 
 PRINTERS = {'XML': (to_xml, '.xml'), 'JSON': (to_json, '.json'), 'YAML': (to_yaml, '.yaml')}
@@ -385,11 +395,11 @@ def model_prop(p):
     exp = {'name': p['name'], 'id': p['id']}
     dropped = []
     pa = [(t, x) for t, x in p['attrs'] if t != '#comment' and not absent(x)]
-    exp['dependency'] = _first(pa, 'dependency')
+    exp['dependency'] = _first(pa, 'dependency') or None          # ('' prescribes nothing)
     dv = _first(pa, 'dependency_value')
     if dv is None:
         dv = _first(pa, 'dependencyvalue')
-    exp['dependency_value'] = dv
+    exp['dependency_value'] = dv or None
     for t, x in pa:
         if t not in ('definition', 'dependency', 'dependency_value', 'dependencyvalue'):
             dropped.append(('prop-unsupported', t, x))
@@ -513,6 +523,10 @@ def doc_features(doc, fmt, src):
         natives('section', [x for _, x in sec['attrs']] + [sec['id']])
         for p in sec['props']:
             natives('property', [x for _, x in p['attrs']] + [p['id']])
+            if fmt != 'XML' and any(is_nat(v['text']) and absent(v['text']) for v in p['values']):
+                out.append('null-value-content')
+            if fmt != 'XML' and any(is_nat(x) and absent(x) for v in p['values'] for _, x in v['attrs']):
+                out.append('null-value-attribute')
         for c in sec['secs']:
             nat_rec(c)
     for s in doc['secs']:
@@ -672,6 +686,7 @@ def check_case(ck, doc, fmt, src, out, log, wit):
         dup = _raw_duplicate_names(ck, doc, out, wit)
         if raw_ok and not dup:
             feats = doc_features(doc, fmt, src)
+            feats = [f for f in feats if f.startswith('null-')] + feats
             ck.fail('loads-strict', feats[0] if feats else 'unclassified:' + type(res).__name__, wit,
                     'XMLReader(ignore_errors=False) raised %s: %s' % (type(res).__name__, res))
         return None
@@ -702,7 +717,7 @@ def check_case(ck, doc, fmt, src, out, log, wit):
             for tag, field in (('definition', '_definition'), ('reference', '_reference')):
                 want = _first(s['attrs'], tag)
                 obs[(key, 'section-' + tag)] = (getattr(g, field), _kinds([x for t, x in s['attrs'] if t == tag]))
-                if want is not None and not same_scalar(want, getattr(g, field)):
+                if want is not None and want != '' and not same_scalar(want, getattr(g, field)):
                     ck.fail('section-tree', 'section-' + tag + _suffix(want), wit, '%s: %s %r became %r'
                             % (here, tag, want, getattr(g, field)))
             check_id(ck, 'section', s['id'], g._id, wit)
@@ -735,11 +750,11 @@ def check_case(ck, doc, fmt, src, out, log, wit):
             texts = [v['text'] for v in p['values']]
             vfeat = values_feature(texts)
             obs[(pkey, 'name')] = (q._name, 'strings')
-            obs[(pkey, 'dtype')] = (q._dtype, _kinds(_column(p, 'type')))
+            obs[(pkey, 'dtype')] = (q._dtype, _kinds(_column(p, 'type') + texts))
             # dtype
             if exp['dtype'] is not None and q._dtype != exp['dtype']:
                 ck.fail('dtype-kept', 'binary' if exp['dtype'] == 'text' and 'binary' in json.dumps(p) else
-                        'dtype-' + _placement(p, 'type'), wit,
+                        'dtype-' + _placement(p, 'type') + _unset_note(p, 'type'), wit,
                         '%s: dtype %r expected, got %r' % (pid, exp['dtype'], q._dtype))
             # values in order
             gotvals = list(q._values)
@@ -764,10 +779,13 @@ def check_case(ck, doc, fmt, src, out, log, wit):
                 verdicts = [_match_value(e, gv, q._dtype) for e, gv in zip(entries, gotvals)]
                 if None not in verdicts and (len(entries) != len(gotvals) or False in verdicts):
                     bad = verdicts.index(False) if False in verdicts else min(len(entries), len(gotvals))
-                    if bad < len(entries) and is_nat(entries[bad]):
-                        vfeat = 'value:' + kind(entries[bad])
-                    elif bad >= len(entries) and any(is_nat(t) for t in texts):
+                    lost = _lost(entries, gotvals, q._dtype)
+                    if len(gotvals) > len(entries) and any(is_nat(t) for t in texts):
                         vfeat = 'extra-value-beside:' + _kinds(texts)
+                    elif len(gotvals) < len(entries) and any(is_nat(entries[i]) for i in lost):
+                        vfeat = 'value:' + [kind(entries[i]) for i in lost if is_nat(entries[i])][0]
+                    elif bad < len(entries) and is_nat(entries[bad]):
+                        vfeat = 'value:' + kind(entries[bad])
                     ck.fail('values-preserved', vfeat, wit, '%s: value elements %r became values %r (dtype %r)'
                             % (pid, texts, gotvals, q._dtype))
             # lifted attributes
@@ -777,7 +795,8 @@ def check_case(ck, doc, fmt, src, out, log, wit):
                 src_tag = {'value_origin': 'filename'}.get(fkey, fkey)
                 obs[(pkey, fkey)] = (getattr(q, field), _kinds(_column(p, src_tag)))
                 if exp[fkey] is not None and not same_scalar(exp[fkey], getattr(q, field)):
-                    ck.fail(fkey + '-kept', '%s-%s%s' % (fkey, _placement(p, src_tag), _suffix(exp[fkey])), wit,
+                    ck.fail(fkey + '-kept', '%s-%s%s%s' % (fkey, _placement(p, src_tag), _suffix(exp[fkey]),
+                                                         _unset_note(p, src_tag)), wit,
                             '%s: %s %r expected, got %r' % (pid, fkey, exp[fkey], getattr(q, field)))
             obs[(pkey, 'uncertainty')] = (q._uncertainty, _kinds(_column(p, 'uncertainty')))
             if exp['uncertainty'] is not None:
@@ -788,7 +807,7 @@ def check_case(ck, doc, fmt, src, out, log, wit):
                     same = False
                 if not same:
                     ck.fail('uncertainty-kept', 'uncertainty-' + _placement(p, 'uncertainty') +
-                            _suffix(exp['uncertainty']), wit,
+                            _suffix(exp['uncertainty']) + _unset_note(p, 'uncertainty'), wit,
                             '%s: uncertainty %r expected, got %r' % (pid, exp['uncertainty'], q._uncertainty))
             check_id(ck, 'property', p['id'], q._id, wit)
             for where, t, x in dropped:
@@ -804,9 +823,32 @@ def check_case(ck, doc, fmt, src, out, log, wit):
     return obs
 
 
+def _lost(entries, gotvals, dtype):
+    """Indices of the value contents that have no counterpart among the loaded values (order kept). Equal
+    contents make this ambiguous; of the left-most and the right-most alignment the one that blames more
+    native scalars is taken, for the failure label only."""
+    def align(es, gs):
+        out, k = [], 0
+        for i, e in enumerate(es):
+            if k < len(gs) and _match_value(e, gs[k], dtype):
+                k += 1
+            else:
+                out.append(i)
+        return out
+    left = align(entries, gotvals)
+    right = [len(entries) - 1 - i for i in align(entries[::-1], gotvals[::-1])][::-1]
+    score = lambda idx: sum(1 for i in idx if is_nat(entries[i]))     # noqa: E731
+    return right if score(right) > score(left) else left
+
+
 def _suffix(x):
     """Feature suffix naming the native scalar involved ('' for strings, so string features keep their names)."""
     return ':' + kind(x) if is_nat(x) else ''
+
+
+def _unset_note(p, tag):
+    """Feature suffix: the attribute also has unset (null) entries."""
+    return ':beside-null-entry' if any(is_nat(x) and absent(x) for x in _column(p, tag)) else ''
 
 
 def _canon(v):
@@ -1185,8 +1227,9 @@ def gen_native_cases(tier, rnd):
         yield ('non-value', 'last') + lab, one_prop_doc(P('p', [V('a'), V(x)]))
         yield ('non-value', 'middle') + lab, one_prop_doc(P('p', [V('a'), V(x), V('b')]))
         yield ('non-value', 'twice') + lab, one_prop_doc(P('p', [V(x), V(x)]))
+        typ = [] if kind(x) == 'native-list' else [('type', 'int')]      # (a list is no int)
         yield ('non-value', 'with-attributes') + lab, one_prop_doc(
-            P('p', [V(x, ('unit', 'mV'), ('type', 'int')), V('1'), V(N(2))]))
+            P('p', [V(x, ('unit', 'mV'), *typ), V('1'), V(N(2))]))
     # N3 native contents of the value attributes x placement
     nums = ['1', '2', '3']
     for tag, triples in NATIVE_TRIPLES.items():
@@ -1350,8 +1393,11 @@ def all_cases(tier, seed):
 # ---------------------------------------------------------------------------------------------
 
 DECL_GROUPS = ('empty', 'order', 'values-typed', 'dependency')
-# groups whose JSON / YAML sources are also given with sorted and with reverse sorted keys in the quick tier
-# (every 7th document of the other groups; all documents in the thorough tier)
+# groups whose sources are also given in other layouts in the quick tier (every 7th document of the other groups;
+# all documents in the thorough tier): JSON / YAML with sorted keys and no empty lists, with reverse sorted keys and
+# all empty lists written out; XML with one element per line
+LAYOUTS = {'stringio-keys-sorted-empty-lists-omitted': {'order': 'sorted', 'empties': 'omitted'},
+           'stringio-keys-reversed-empty-lists-explicit': {'order': 'reversed', 'empties': 'explicit'}}
 ORDER_GROUPS = ('attr', 'attr-own-definition', 'binary', 'unsupported', 'dependency', 'unnamed-property', 'order',
                 'native-attr', 'unset-attr', 'unset-own-definition', 'native-unsupported')
 
@@ -1393,8 +1439,8 @@ def run_convert(tier, seed):
                 kinds = ['file', 'stringio']
                 if fmt == 'XML' and key[0] in DECL_GROUPS:
                     kinds += ['stringio-decl-encoding', 'stringio-decl-plain']
-                if fmt != 'XML' and (key[0] in ORDER_GROUPS or tier != 'quick' or idx % 7 == 0):
-                    kinds += ['stringio-keys-sorted', 'stringio-keys-reversed']
+                if key[0] in ORDER_GROUPS or tier != 'quick' or idx % 7 == 0:
+                    kinds += ['stringio-pretty'] if fmt == 'XML' else list(LAYOUTS)
                 for src in kinds:
                     col.case(cls_key=(key, fmt, src), sample='%r %s %s' % (key, fmt, src))
                     if src == 'file':
@@ -1411,10 +1457,13 @@ def run_convert(tier, seed):
                             # a StringIO holds decoded text: by default without XML declaration (as the
                             # repository's own tests do); the declared variants are separate, labelled cases
                             stext = to_xml(doc, decl={'stringio': '', 'stringio-decl-encoding': XML_DECL,
-                                                      'stringio-decl-plain': '<?xml version="1.0"?>\n'}[src])
-                        elif src.startswith('stringio-keys-'):
-                            # the same mappings with their keys in another order
-                            stext = printer(doc, order=src[len('stringio-keys-'):])
+                                                      'stringio-decl-plain': '<?xml version="1.0"?>\n',
+                                                      'stringio-pretty': ''}[src])
+                            if src == 'stringio-pretty':
+                                stext = to_xml_pretty(doc)
+                        elif src in LAYOUTS:
+                            # the same mappings with their keys in another order / other spelling of empty lists
+                            stext = printer(doc, **LAYOUTS[src])
                         wit = {'doc': doc, 'format': fmt, 'source': src, 'text': stext if len(stext) < 1500 else None}
                         sio = io.StringIO(stext)
                         st, res = h.call(_convert, sio, fmt)
